@@ -498,6 +498,10 @@ pub struct ValueSet {
     pub seen: HashSet<u64>,
     /// per encoding length the lexicographically smallest encoding found
     pub by_len: BTreeMap<usize, Vec<u8>>,
+    /// the same for encodings of values that are not well-formed (they need not decode)
+    pub by_len_nonwf: BTreeMap<usize, Vec<u8>>,
+    /// every problem counted per signature; `findings` keeps the first three of each
+    pub sig_counts: BTreeMap<String, u64>,
     /// encodings of the hand-written letters (always used as bases)
     pub letters: Vec<(String, Vec<u8>)>,
     pub findings: Vec<Finding>,
@@ -515,28 +519,40 @@ impl ValueSet {
             *self.counters.entry(k).or_insert(0) += n;
         }
         self.seen.extend(o.seen);
-        for (l, e) in o.by_len {
-            match self.by_len.get(&l) {
-                Some(cur) if *cur <= e => {}
-                _ => {
-                    self.by_len.insert(l, e);
+        for (mine, theirs) in [(&mut self.by_len, o.by_len), (&mut self.by_len_nonwf, o.by_len_nonwf)] {
+            for (l, e) in theirs {
+                match mine.get(&l) {
+                    Some(cur) if *cur <= e => {}
+                    _ => {
+                        mine.insert(l, e);
+                    }
                 }
             }
         }
         self.letters.extend(o.letters);
-        if self.findings.len() < 64 {
-            self.findings.extend(o.findings);
+        for f in o.findings {
+            self.keep(f);
+        }
+        for (s, n) in o.sig_counts {
+            *self.sig_counts.entry(s).or_insert(0) += n;
         }
         if self.sample.is_none() {
             self.sample = o.sample;
         }
     }
-    fn add_encoding(&mut self, e: Vec<u8>) {
+    /// keep the first three findings per signature (callers feed them in enumeration order)
+    fn keep(&mut self, f: Finding) {
+        if self.findings.iter().filter(|g| g.sig == f.sig).count() < 3 {
+            self.findings.push(f);
+        }
+    }
+    fn add_encoding(&mut self, e: Vec<u8>, wf: bool) {
         self.seen.insert(fxhash(&e));
-        match self.by_len.get(&e.len()) {
+        let m = if wf { &mut self.by_len } else { &mut self.by_len_nonwf };
+        match m.get(&e.len()) {
             Some(cur) if *cur <= e => {}
             _ => {
-                self.by_len.insert(e.len(), e);
+                m.insert(e.len(), e);
             }
         }
     }
@@ -687,15 +703,14 @@ fn eval_one<T: Subject>(name: &str, cfg: &ValueCfg, v: &T, case: impl Fn() -> Va
     let obs = check_value(v, cfg.check);
     acc.bump(obs.bucket);
     for (s, d) in obs.bad {
-        if acc.findings.len() < 64 {
-            acc.findings.push(Finding { sig: format!("{}/{s}", cfg.prop), case: case(), detail: format!("type {name}: {d}") });
-        } else {
-            acc.bump("findings-dropped");
-        }
+        let sig = format!("{}/{s}", cfg.prop);
+        *acc.sig_counts.entry(sig.clone()).or_insert(0) += 1;
+        acc.keep(Finding { sig, case: case(), detail: format!("type {name}: {d}") });
     }
+    let wf = obs.wf;
     obs.enc.map(|e| {
         let r = (fxhash(&e), e.len());
-        acc.add_encoding(e);
+        acc.add_encoding(e, wf);
         r
     })
 }
@@ -731,9 +746,7 @@ pub fn values_of<T: Subject>(name: &'static str, cfg: &ValueCfg, g: Gen<T>, lett
         out.tapes += 1;
         let label = l.label.clone();
         let lab2 = label.clone();
-        let before = out.findings.len();
         let r = eval_one(name, cfg, &l.value, move || json!({"kind": "letter", "type": name, "label": lab2}), &mut out);
-        let _ = before;
         if r.is_some() {
             if let Ok(Ok(e)) = catch(|| Streamable::to_bytes(&l.value)) {
                 out.letters.push((label, e));
@@ -910,6 +923,8 @@ pub struct Base {
     /// false: probe as is, do not mutate (long raw letters)
     pub mutate: bool,
     pub kind: MutKind,
+    /// produced by to_bytes of a well-formed value (letters, enumerated values): must decode
+    pub from_wellformed: bool,
 }
 
 pub struct BaseCfg {
@@ -931,16 +946,16 @@ pub fn select_bases(type_idx: usize, e: &TypeEntry, vs: &ValueSet, pat: &BlsPatt
         let (norm, k) = pat.normalise(bytes);
         if k > 0 && (e.probe)(&norm, pc).un == Dec::Ok {
             if seen.insert(norm.clone()) {
-                out.push(Base { type_idx, origin: format!("{origin} (zero-seed BLS points replaced by the identity)"), bytes: norm, mutate: true, kind: MutKind::Base });
+                out.push(Base { type_idx, origin: format!("{origin} (zero-seed BLS points replaced by the identity)"), bytes: norm, mutate: true, kind: MutKind::Base, from_wellformed: true });
             }
             if (always_raw || *raw_left > 0) && seen.insert(bytes.to_vec()) {
                 if !always_raw {
                     *raw_left -= 1;
                 }
-                out.push(Base { type_idx, origin, bytes: bytes.to_vec(), mutate: true, kind: MutKind::Base });
+                out.push(Base { type_idx, origin, bytes: bytes.to_vec(), mutate: true, kind: MutKind::Base, from_wellformed: true });
             }
         } else if seen.insert(bytes.to_vec()) {
-            out.push(Base { type_idx, origin, bytes: bytes.to_vec(), mutate: true, kind: MutKind::Base });
+            out.push(Base { type_idx, origin, bytes: bytes.to_vec(), mutate: true, kind: MutKind::Base, from_wellformed: true });
         }
     };
     for (label, b) in &vs.letters {
@@ -953,9 +968,19 @@ pub fn select_bases(type_idx: usize, e: &TypeEntry, vs: &ValueSet, pat: &BlsPatt
         }
         push(format!("smallest enumerated encoding of length {len}"), b, &mut out, &mut raw_left, false);
     }
+    for (i, (len, b)) in vs.by_len_nonwf.iter().enumerate() {
+        if i >= cfg.max_lengths {
+            break;
+        }
+        let n0 = out.len();
+        push(format!("smallest enumerated encoding of length {len} of a value that is not well-formed"), b, &mut out, &mut raw_left, false);
+        for x in &mut out[n0..] {
+            x.from_wellformed = false;
+        }
+    }
     for (label, b) in (e.raw)() {
         let mutate = b.len() <= cfg.max_mutated_raw_len;
-        out.push(Base { type_idx, origin: format!("raw letter {label}"), bytes: b, mutate, kind: MutKind::Raw });
+        out.push(Base { type_idx, origin: format!("raw letter {label}"), bytes: b, mutate, kind: MutKind::Raw, from_wellformed: false });
     }
     (out, capped)
 }
